@@ -24,6 +24,9 @@ class Harness:
         self.expect = kv.get('expect', 'pass')          # pass | finding:<ID>
         self.timeout = int(kv.get('timeout', '600'))
         self.attempt = kv.get('attempt', '') == '1'
+        # expect=finding:<ID> standalone=1: the finding covers every input of this obligation, so no main harness
+        # repeats it; when <ID> is not listed open the harness runs as an ordinary obligation instead of being skipped
+        self.standalone = kv.get('standalone', '') == '1'
         self.result = None
 
     @property
@@ -43,6 +46,7 @@ class KaniUnit:
         self.inject = None
         self.notes = []
         self.deps = []
+        self.stubbing = False
         for ln in text.split('\n'):
             s = ln.strip()
             if not s.startswith('//#'):
@@ -56,12 +60,14 @@ class KaniUnit:
                 self.kind = kv['kind']
                 self.crate = kv.get('crate')
                 self.inject = kv.get('inject')
+                # stubbing=1: the unit has modular harnesses (harness!(.., stub(callee, abstraction), ..)) -> -Z stubbing
+                self.stubbing = kv.get('stubbing', '') == '1'
             elif parts[0] == 'harness':
                 self.harnesses.append(Harness(self, parts[1], parse_kv(parts[2:])))
             elif parts[0] == 'assume':
                 self.notes.append(' '.join(parts[1:]))
         declared = set(h.name for h in self.harnesses)
-        defined = set(re.findall(r'^\s*harness!\(\s*(\w+)\s*,', text, re.M))
+        defined = set(re.findall(r'^\s*harness(?:_cvc5)?!\(\s*(\w+)\s*,', text, re.M))
         if declared != defined:
             raise RuntimeError('%s: harness annotations and harness! definitions differ: %s' %
                                (path, sorted(declared ^ defined)))
@@ -150,6 +156,8 @@ def kani_cmd(unit, prep, extra):
     cmd = ['cargo', 'kani']
     if prep['pkg']:
         cmd += ['-p', prep['pkg']]
+    if unit.stubbing:
+        cmd += ['-Z', 'stubbing']
     return cmd + extra
 
 
